@@ -1,7 +1,7 @@
 (* C16 - realising ornaments keeps every note's time span.  Statements only; proofs in Proofs/OrnProofs.v.
    ideal t c d = the figure of tag t in exact arithmetic; realize = the library's builder (with
    limit_denominator(1000) inside set_duration) followed by realize_tags' final assertion. *)
-From ML Require Import Model.Types gen.Tables Model.Dur Model.Orn Proofs.DurProofs Proofs.OrnProofs.
+From ML Require Import Model.Types gen.Tables Model.Dur Model.Orn Model.OrnAll Proofs.DurProofs Proofs.OrnProofs Proofs.OrnAllProofs.
 From Coq Require Import QArith.
 Open Scope Q_scope.
 
@@ -33,6 +33,26 @@ Proof.
 Qed.
 
 (* non-vacuity: the grupetto on a quarter note (the case that used to end with a negative piece) *)
+(* combinations of tags: the builders run one after the other, each on the melody the previous ones produced
+   (Melody.set_duration = augment by the ratio; .duration = the sum of the pieces).  For ANY list of tags - any subset, order
+   and repetition - in any context and for any duration d >= 0, zero included, the realisation in exact arithmetic never
+   fails, fills exactly the note's span and contains no negative duration *)
+Theorem C16_combinations : forall c ts d, 0 <= d ->
+  exists l, ideal_all c ts d = Some l /\ qsum l == d /\ Forall (fun x => 0 <= x) l.
+Proof. exact combination_ok. Qed.
+
+(* with the library's rounding (limit_denominator(1000) at every step), whatever realize_tags returns has the note's duration *)
+Theorem C16_combinations_total : forall c ts d l, realize_all c ts d = Some l -> qsum l == d.
+Proof. exact realize_all_total. Qed.
+
+(* before the repair of Melody.set_duration a zero-length note with suspension_prev and suspension_prev_repeat raised *)
+Theorem C16_combinations_before_repair_refuted :
+  let c := mkCtx true true true 0 0 false false false 0 0 in
+  pipeline idq false c [TSuspensionPrev; TSuspensionPrevRepeat] (mkO true [0]) = None /\
+  pipeline sd false c [TSuspensionPrev; TSuspensionPrevRepeat] (mkO true [0]) = None /\
+  realize_all c [TSuspensionPrev; TSuspensionPrevRepeat] 0 = Some [0; 0; 0].
+Proof. exact combination_before_repair_refuted. Qed.
+
 Example C16_ex : realize TGrupetto (mkCtx false true true 0 0 false false false 0 0) 1 = Some [0; 1 # 6; 1 # 6; 1 # 6; 1 # 2]
   /\ forallb fits (ideal TGrupetto (mkCtx false true true 0 0 false false false 0 0) 1) = true
   /\ realize TRoll (mkCtx false true true 0 0 false false false 0 0) (4 # 5) = Some [1 # 4; 1 # 4; 1 # 4; 1 # 20].
